@@ -154,7 +154,10 @@ async def connect(  # pylint: disable=too-many-locals
 
         await atv.connect()
     except Exception:
-        await session_manager.close()
+        # Close protocols that were already connected (also closes session manager)
+        pending_tasks = atv.close()
+        if pending_tasks:
+            await asyncio.wait(pending_tasks)
         raise
     return atv
 
